@@ -218,6 +218,13 @@ def to_rfi_laws(cx, fn):
     return loop, roles, tf
 
 
+def _none_conj(test, v):
+    """`v is None`, alone or as one conjunct of the test"""
+    if is_none_test(test, v):
+        return True
+    return isinstance(test, ast.BoolOp) and isinstance(test.op, ast.And) and any(is_none_test(x, v) for x in test.values)
+
+
 def to_rfi_defaults(cx, fn):
     loop, roles = to_rfi_roles(cx, fn)
     ch = roles['channels']
@@ -231,7 +238,7 @@ def to_rfi_defaults(cx, fn):
         cx.need(assigns, 'transform.to_rfi: no default handling for %s' % p)
         oks, vals = True, []
         for a in assigns:
-            under = [x for x in fn.ancestors(a) if isinstance(x, ast.If) and is_none_test(x.test, v)
+            under = [x for x in fn.ancestors(a) if isinstance(x, ast.If) and _none_conj(x.test, v)
                      and fn.in_body_of(a, x, 'body')]
             oks = oks and bool(under)
             nf = sym.norm(a.value)
@@ -254,7 +261,7 @@ def to_rfi_defaults(cx, fn):
                   key='refuse-' + p)
     # a None gain from the sample falls back to 1 as well
     v = roles['amplifier_gain']
-    inner = [x for x in fn.stmts(ast.If, loop) if is_none_test(x.test, v)]
+    inner = [x for x in fn.stmts(ast.If, loop) if _none_conj(x.test, v)]
     fn.ob('NULLDEFAULT', 'gain unspecified by caller and sample means gain 1', len(inner) >= 2, inner[0] if inner else loop,
           detail='' if len(inner) >= 2 else 'no nested `if %s is None: %s = 1.`' % (v, v), key='gain-one')
 
@@ -358,11 +365,16 @@ def writeset(cx, fn, var, loop, chan_var, law_names, guard_test=None, scalar_pat
     run_context(fn, fn.ast.body[0], None, resolved=False)          # computes the set of local names
     allowed = {'when ' + sym.show(_abstract(sym.norm("hasattr(%s, '_range')" % var), {}, fn._local_names)),
                'when ' + sym.show(_abstract(sym.norm('%s._range[%s] is not None' % (var, chan_var)), {}, fn._local_names))}
+    tests = [(ast.parse("hasattr(%s, '_range')" % var, mode='eval').body, True),
+             (ast.parse('%s._range[%s] is not None' % (var, chan_var), mode='eval').body, True)]
+    allowed0 = allowed
     for c_st in col_sts:
         for r_st in rng_sts:
-            for reading in (False, True):
+            for reading in (False, True, 'temps'):
                 cc = set(run_context(fn, c_st, None, resolved=reading) or [])
                 rc = set(run_context(fn, r_st, None, resolved=reading) or [])
+                # the two excepted tests in this reading's own spelling (as they would read at the range store)
+                allowed = (set(run_context(fn, c_st, None, resolved=reading, extra_tests=tests) or []) - cc) if reading else allowed0
                 extra = sorted((rc - cc) - allowed)
                 lost = sorted(cc - rc)
                 ok = not extra and not lost and allowed <= rc
